@@ -5,6 +5,7 @@
 # imports, 3. demo fails with the patch, 4. the given existing tests pass
 # with the patch.  Everything runs in a private network namespace.
 set -u
+V=$(cd "$(dirname "$0")/.." && pwd)
 D="$1"; NAME="$2"; TESTS="${3:-tests/compiler/test_compiler.py tests/runtime}"
 WT=/tmp/cf_$NAME
 OUT="$D/confirm.json"
@@ -13,9 +14,9 @@ git -C /repo worktree add -q --detach "$WT" HEAD || exit 2
 DEMO=$(ls "$D"/demo*.py | head -1)
 run_demo() {
   if grep -q "^def test_\|^async def test_" "$DEMO" && ! grep -q "__main__" "$DEMO"; then
-    (cd "$WT" && timeout 900 /tmp/iso.sh env PYTHONPATH="$WT" /venv/bin/python -m pytest -q -p no:cacheprovider -x "$DEMO" --timeout=600 >/tmp/cf_$NAME.demo.log 2>&1)
+    (cd "$WT" && timeout 900 "$V/tools/iso.sh" env PYTHONPATH="$WT" /venv/bin/python -m pytest -q -p no:cacheprovider -x "$DEMO" --timeout=600 >/tmp/cf_$NAME.demo.log 2>&1)
   else
-    (cd "$WT" && timeout 900 /tmp/iso.sh env PYTHONPATH="$WT" /venv/bin/python "$DEMO" >/tmp/cf_$NAME.demo.log 2>&1)
+    (cd "$WT" && timeout 900 "$V/tools/iso.sh" env PYTHONPATH="$WT" /venv/bin/python "$DEMO" >/tmp/cf_$NAME.demo.log 2>&1)
   fi
   echo $?
 }
@@ -24,7 +25,7 @@ git -C "$WT" apply "$D/patch.diff"; APPLY=$?
 IMPORT=$(cd "$WT" && PYTHONPATH="$WT" /venv/bin/python -c "import bqskit" >/dev/null 2>&1; echo $?)
 MUT=$(run_demo)
 tail -c 600 /tmp/cf_$NAME.demo.log > /tmp/cf_$NAME.demo.tail
-(cd "$WT" && timeout 5400 /tmp/iso.sh env PYTHONPATH="$WT" /venv/bin/python -m pytest -q -p no:cacheprovider --timeout=900 $TESTS >/tmp/cf_$NAME.tests.log 2>&1); TRC=$?
+(cd "$WT" && timeout 5400 "$V/tools/iso.sh" env PYTHONPATH="$WT" /venv/bin/python -m pytest -q -p no:cacheprovider --timeout=900 $TESTS >/tmp/cf_$NAME.tests.log 2>&1); TRC=$?
 TSUM=$(tail -n 1 /tmp/cf_$NAME.tests.log)
 git -C /repo worktree remove --force "$WT" >/dev/null 2>&1
 printf '{"name": "%s", "demo_on_clean_exit": %s, "patch_applies": %s, "import_exit": %s, "demo_with_patch_exit": %s, "tests": "%s", "tests_exit": %s, "tests_summary": "%s"}\n' \
